@@ -533,16 +533,18 @@ size_t derTUINTEnc(octet der[], u32 tag, const octet* val, size_t len)
 		--len;
 	// установлен старший бит V => дополнительный нулевой октет
 	ex = (val[len - 1] & 128) ? 1 : 0;
-	// кодировать T и L
-	tl_count = derTLEnc(der, tag, len + ex);
+	// длина TL
+	tl_count = derTLEnc(0, tag, len + ex);
 	if (tl_count == SIZE_MAX)
 		return SIZE_MAX;
-	// кодировать V
+	// кодировать V, затем T и L (val и der могут пересекаться)
 	if (der)
 	{
 		ASSERT(memIsValid(der, tl_count + len + ex));
+		memMove(der + tl_count, val, len);
+		if (derTLEnc(der, tag, len + ex) != tl_count)
+			return SIZE_MAX;
 		der += tl_count;
-		memCopy(der, val, len);
 		if (ex)
 			der[len] = 0;
 		memRev(der, len + ex);
